@@ -108,7 +108,7 @@ class Exec(Interp):
         if isinstance(fn, SpecFn):
             return fn.fn(self, *args, **kwargs)
         if isinstance(fn, ExternalRef):
-            m = B.EXTERNALS.get(fn.name)
+            m = self.opts.get("externals", {}).get(fn.name) or B.EXTERNALS.get(fn.name)
             if m is None:
                 raise OutsideSubset("external %s not modelled" % fn.name, node)
             return m(self, args, kwargs, node)
